@@ -135,6 +135,7 @@ type c08cStation struct {
 	updR    []*cj.DecoyRegistration
 	tunnels map[int]*c08cTunnel
 	open    int32
+	accepted *int32 // connections the covert echo server of this case has accepted
 	ln      net.Listener // where the peers dial (stands for the station's port 41245)
 }
 
@@ -234,7 +235,8 @@ func (s *c08cStation) reg(k [3]int) (*cj.DecoyRegistration, error) {
 
 const (
 	c08cPayloadLen = 24
-	c08cEchoWait   = 1200 * time.Millisecond // how long a peer waits for its payload to come back
+	c08cEchoWait   = 2 * time.Second         // how long a peer waits for its payload to come back ...
+	c08cEchoMax    = 12 * time.Second        // ... at most, while there is evidence that the handler did match
 	c08cReturnWait = 8 * time.Second         // how long the driver waits for a handler invocation to return
 )
 
@@ -284,9 +286,39 @@ func (s *c08cStation) connect(o c08cOp, ob *c08cObs) {
 		ob.Note = "client write: " + err.Error()
 		return
 	}
+	// The peer waits for its payload to come back.  How long: c08cEchoWait, and - on a loaded machine - for as long as
+	// there is evidence that the handler did match (the covert was dialled, or the registration's record or the Update
+	// hook show the mark), up to c08cEchoMax.  The evidence only decides how long to wait, never the outcome.
 	got := make([]byte, c08cPayloadLen)
-	w.SetReadDeadline(time.Now().Add(c08cEchoWait))
-	n, _ := io.ReadFull(w, got)
+	n := 0
+	accepted0 := atomic.LoadInt32(s.accepted)
+	probe, _ := s.reg(k)
+	t0 := time.Now()
+	for n < c08cPayloadLen {
+		w.SetReadDeadline(time.Now().Add(c08cEchoWait / 4))
+		m, err := w.Read(got[n:])
+		n += m
+		if err == nil {
+			continue
+		}
+		if ne, ok := err.(net.Error); !ok || !ne.Timeout() {
+			break
+		}
+		el := time.Since(t0)
+		if el < c08cEchoWait {
+			continue
+		}
+		s.mu.Lock()
+		marked := len(s.updR) > 0
+		s.mu.Unlock()
+		if probe != nil && s.rm.VerifC08Look(probe).Status == 1 {
+			marked = true
+		}
+		if el < c08cEchoMax && (marked || atomic.LoadInt32(s.accepted) > accepted0) {
+			continue
+		}
+		break
+	}
 	w.SetReadDeadline(time.Time{})
 	ob.Recognised = n == c08cPayloadLen && string(got) == string(payload)
 	if !ob.Recognised {
@@ -309,7 +341,7 @@ func (s *c08cStation) closeConn(c int, ob *c08cObs) {
 	}
 }
 
-func c08cEchoServer() (net.Listener, error) {
+func c08cEchoServer(accepted *int32) (net.Listener, error) {
 	ln, err := net.Listen("tcp", "127.0.0.1:0")
 	if err != nil {
 		return nil, err
@@ -320,6 +352,7 @@ func c08cEchoServer() (net.Listener, error) {
 			if err != nil {
 				return
 			}
+			atomic.AddInt32(accepted, 1)
 			go func(c net.Conn) {
 				defer c.Close()
 				_, _ = io.Copy(c, c)
@@ -329,16 +362,27 @@ func c08cEchoServer() (net.Listener, error) {
 	return ln, nil
 }
 
-func c08cRun(c c08cCase, covert string) (res c08cRes) {
+func c08cRun(c c08cCase) (res c08cRes) {
 	start := time.Now()
+	var accepted int32
+	echo, err := c08cEchoServer(&accepted)
+	if err != nil {
+		res.Err = "echo server: " + err.Error()
+		return
+	}
+	defer echo.Close()
+	covert := echo.Addr().String()
 	defer func() {
 		if r := recover(); r != nil {
 			res.Err = fmt.Sprintf("panic: %v", r)
 		}
 		res.RealMs = time.Since(start).Milliseconds()
-		res.Slow = time.Since(start) > 15*time.Second
+		res.Slow = time.Since(start) > 30*time.Second // the generator keeps ages 45 s away from a limit
 	}()
 	s, err := c08cNewStation(covert)
+	if s != nil {
+		s.accepted = &accepted
+	}
 	if err != nil {
 		res.Err = "station: " + err.Error()
 		return
@@ -511,11 +555,6 @@ func TestVerifC08Conn(t *testing.T) {
 		os.Stdout = dn // the handler logs every connection to os.Stdout
 		defer func() { os.Stdout = stdout }()
 	}
-	echo, err := c08cEchoServer()
-	if err != nil {
-		t.Fatal(err)
-	}
-	defer echo.Close()
 	res := make([]c08cRes, len(cases))
 	var wg sync.WaitGroup
 	sem := make(chan struct{}, 12)
@@ -525,7 +564,7 @@ func TestVerifC08Conn(t *testing.T) {
 		go func(i int) {
 			defer wg.Done()
 			for try := 0; try < 3; try++ {
-				res[i] = c08cRun(cases[i], echo.Addr().String())
+				res[i] = c08cRun(cases[i])
 				if !res[i].Slow {
 					break
 				}
